@@ -63,6 +63,28 @@ def Sign(x):
 
 INF = float('inf')
 
+AUX = []        # defining constraints of spec-level roots created in z3 mode (collected by the checker)
+_aux_n = [0]
+
+
+def Root(x, q):
+    """x ** (1/q) for x >= 0"""
+    if _isz(x):
+        _aux_n[0] += 1
+        r = z3.Real(f'specroot{q}!{_aux_n[0]}')
+        p = r
+        for _ in range(q - 1):
+            p = p * r
+        AUX.append(z3.And(r >= 0, p == x))
+        return r
+    return x ** (1.0 / q)
+
+
+def take_aux():
+    out = list(AUX)
+    del AUX[:]
+    return out
+
 # ------------------------------------------------------------------ separable penalties
 # each spec: phi(t) value of ONE coordinate (finite part), dom(t) feasibility, pieces for case splits,
 # dminus(t), dplus(t): one-sided derivatives of phi restricted to dom (regular subdifferential
@@ -72,6 +94,7 @@ INF = float('inf')
 class PenSpec:
     convex = True
     name = ''
+    inf_outside = True      # a configured POSITIVITY constraint: the score must be +inf where it is violated
 
     def dom(self, t):
         return True
@@ -192,6 +215,7 @@ class SCADSpec(PenSpec):
 
 class BoxSpec(PenSpec):
     """indicator of [0, alpha]"""
+    inf_outside = False     # C08 demands +inf only for positivity constraints; box: feasible points only
 
     def __init__(self, alpha):
         self.alpha = alpha
@@ -227,7 +251,7 @@ class PosSpec(PenSpec):
 
 
 class LogSumSpec(PenSpec):
-    """alpha * log(1 + |t|/eps) (numeric spec; the transcendental part is bounded-numeric)"""
+    """alpha * log(1 + |t|/eps) (value: numeric only; derivative: algebraic)"""
     convex = False
 
     def __init__(self, alpha, eps):
@@ -237,18 +261,43 @@ class LogSumSpec(PenSpec):
         return self.alpha * math.log1p(abs(t) / self.eps)
 
     def params_ok(self):
-        return self.alpha >= 0 and self.eps > 0
+        return And(self.alpha >= 0, self.eps > 0)
+
+    def sub(self, t):
+        a, e = self.alpha, self.eps
+        return [(t > 0, a / (e + t), a / (e + t)), (t < 0, -a / (e - t), -a / (e - t)), (t == 0, -a / e, a / e)]
 
 
 class PowSpec(PenSpec):
-    """alpha * |t|^q (numeric spec)"""
+    """alpha * |t|^(qn/qd), 0 < qn/qd < 1 (value: numeric only; derivative: algebraic via roots).
+    At t = 0 the regular subdifferential is the whole line (infinite slope on both sides)."""
     convex = False
 
-    def __init__(self, alpha, q):
-        self.alpha, self.q = alpha, q
+    def __init__(self, alpha, qn, qd=None):
+        if qd is None:       # PowSpec(alpha, 0.5) legacy numeric form
+            from fractions import Fraction
+            f = Fraction(qn).limit_denominator(12)
+            qn, qd = f.numerator, f.denominator
+        self.alpha, self.qn, self.qd = alpha, qn, qd
 
     def phi(self, t):
-        return self.alpha * abs(t) ** self.q
+        return self.alpha * abs(t) ** (self.qn / self.qd)
+
+    def params_ok(self):
+        return self.alpha >= 0
+
+    def _slope(self, x):
+        """d/dx alpha x^(qn/qd) = alpha (qn/qd) x^(qn/qd - 1) for x > 0; here (qn, qd) in {(1,2), (2,3)}"""
+        r = Root(x, self.qd)
+        # x^(qn/qd - 1) = r^(qn - qd) = 1 / r^(qd - qn)
+        den = r
+        for _ in range(self.qd - self.qn - 1):
+            den = den * r
+        return self.alpha * self.qn / (self.qd * den)
+
+    def sub(self, t):
+        sp, sn = self._slope(Abs(t)), None
+        return [(t > 0, sp, sp), (t < 0, -sp, -sp), (t == 0, None, None)]
 
 
 def prox_obj(spec, u, x, s):
